@@ -1,4 +1,4 @@
-"""C08 extension `packfit` — do the change outputs fit `max_val_size`?
+"""C08 extension `packfit` — the change outputs fit `max_val_size`.
 
 Theorems: lean/Pyc/Props/C08_PackFit.lean (model: the packing / change functions of Model/Builder.lean, measures of
 Model/PackFit.lean).  This module ties them to /repo and evaluates the clause on the implementation:
@@ -6,21 +6,21 @@ Model/PackFit.lean).  This module ties them to /repo and evaluates the clause on
 A. `pack`   `TransactionBuilder._pack_tokens_for_change(addr, value, max_val_size)` called directly.
             Judged WITHOUT the model (independent encoder `ref/cbor_ref`, cross-checked with `cbor2.dumps` of a plain structure;
             independent min-UTxO formula `ref/ledger_ref`):
-              * every chunk fits with the coin it has to be measured with (minimum ADA of the chunk in an output holding the
-                change coin for the first chunk, nothing for the later ones)                   [pack_fit_partial]
+              * every chunk fits with the coin it has to be measured with: the larger of the change coin and the minimum ADA
+                of the chunk in an output holding the change coin                              [pack_fit]
               * nothing lost / duplicated                                                      [pack_preserves_of_fit]
             both whenever no single asset alone exceeds the limit (decided independently); when one does, every chunk that is
             over the limit must be one asset on its own                                        [oversized_chunk_is_single]
             Against the model (`pfit.pack`): chunks, `noSingleOver`, the measured sizes, chunk bound, non-emptiness.
 B. `probe`  `_adding_asset_make_output_overflow` against `pfit.probe` and against the independent measure    [probe_measures]
 C. `change` `_calc_change` directly, change coins on every CBOR width boundary, and
-D. `build`  whole `build()` runs: every change output that carries tokens is measured independently.  The clause is FALSE of
-            the code as it is (`change_fit_counterexample`): what is asserted is the theorem that does hold,
-            `size + width(measured coin) <= max_val_size + width(final coin)` (`change_fit_partial`); an output that is over
-            the limit only because its final coin is wider than the measured one is COUNTED (`packfit:over-limit:final-coin-wider`)
-            and reported in the evidence, not flagged; any other oversized output is a VIOLATION.
-E. `witness` the Lean counterexample witnesses (and a mainnet-parameter one) replayed on the implementation: they must
-            reproduce (a witness that no longer reproduces makes the `_counterexample` theorems stale: ctx.diff).
+D. `build`  whole `build()` runs: every change output that carries tokens is measured independently with the coin it finally
+            carries; one over `max_val_size` is a VIOLATION [change_fit / final_changes_fit] — except when a single asset alone
+            exceeds the limit (outside the hypothesis; counted), or `_calc_change` was called directly WITHOUT the minimum-ADA
+            requirement and returned several outputs (a result `_add_change_and_fee` never keeps; counted).
+E. `witness` the Lean witness of `pack_preserves_counterexample` replayed on the implementation: it must reproduce (a witness
+            that no longer reproduces makes the theorem stale: ctx.diff).  The inputs on which the clause FAILED before the repair
+            8c81354 (a last change output of 2^32 lovelace or more) are regular corpus cases of C and D now.
 """
 from __future__ import annotations
 
@@ -66,21 +66,21 @@ def min_ada(addr_bytes, coin, content, cpb):
 
 
 def probe(addr_bytes, c_out, content, cpb):
-    """(coin, size) the code has to measure a bundle with while the output under construction holds `c_out`"""
-    c = min_ada(addr_bytes, c_out, content, cpb)
+    """(coin, size) the code has to measure a bundle with while the output under construction holds `c_out`: the larger of
+    the minimum ADA of that output and `c_out` itself"""
+    c = max(min_ada(addr_bytes, c_out, content, cpb), c_out)
     return c, vlen(c, content)
 
 
 def singles_over(addr_bytes, change, mvs, cpb):
-    """assets (policy, name) that alone exceed the limit, in a fresh output or in the first one (under the change coin)"""
+    """assets (policy, name) that alone exceed the limit, measured like every output: under the change coin"""
     over = []
     c0 = int(change["coin"])
     for p, a in change["ma"]:
         for n, q in a:
             if int(q) == 0:
                 continue
-            one = {(p, n): int(q)}
-            if probe(addr_bytes, 0, one, cpb)[1] > mvs or probe(addr_bytes, c0, one, cpb)[1] > mvs:
+            if probe(addr_bytes, c0, {(p, n): int(q)}, cpb)[1] > mvs:
                 over.append((p, n))
     return over
 
@@ -127,14 +127,20 @@ def check_pack(ctx, case):
         ctx.skipped += 1
     sizes = []
     for i, c in enumerate(conts):
-        pc, n = probe(ab, c0 if i == 0 else 0, c, cpb) if c else (None, 0)
+        pc, n = probe(ab, c0, c, cpb) if c else (None, 0)
         sizes.append(n)
         if c and n > mvs:
+            own = vlen(min_ada(ab, 0, c, cpb), c)
             if len(c) == 1 and list(c)[0] in over:
                 ctx.count("packfit:pack:oversized-single-emitted-alone")
+            elif own > mvs:
+                # over the limit even with the smallest coin `_calc_change` can put next to it (its minimum ADA)
+                ctx.violation(f"packed chunk {i} of {len(conts)} takes {own} bytes with its own minimum ADA: over max_val_size {mvs}, "
+                              f"and it is not a single asset that alone exceeds the limit", case, mvs, own)
             else:
-                ctx.violation(f"packed chunk {i} of {len(conts)} measures {n} bytes with its minimum ADA {pc}: over max_val_size {mvs}, "
-                              f"and it is not a single asset that alone exceeds the limit", case, mvs, n)
+                # fits with its minimum ADA but not next to the whole change coin (which it receives if it ends up last):
+                # theorem pack_fit no longer describes the code; the over-limit OUTPUT, if any, is found by C / D
+                ctx.diff("pfit.pack:fit-under-change-coin", case, f"<= {mvs} bytes next to coin {pc} (pack_fit)", n)
         if c and not over:
             d = mvs - n
             ctx.count("packfit:pack:slack:" + ("0" if d == 0 else "1" if d == 1 else "2-4" if d <= 4 else "5-40" if d <= 40 else ">40"))
@@ -151,8 +157,9 @@ def check_pack(ctx, case):
             if msz != sizes:
                 ctx.diff("pfit.pack:probe_len", case, msz, sizes)
             for i, c in enumerate(m["chunks"]):
-                if conts[i] and int(c["own_len"]) != probe(ab, 0, conts[i], cpb)[1]:
-                    ctx.diff("pfit.pack:own_len", case, c["own_len"], probe(ab, 0, conts[i], cpb)[1])
+                own = vlen(min_ada(ab, 0, conts[i], cpb), conts[i]) if conts[i] else 0
+                if conts[i] and int(c["own_len"]) != own:
+                    ctx.diff("pfit.pack:own_len", case, c["own_len"], own)
             if len(got) > int(m["pairs"]) + 1:
                 ctx.diff("pfit.pack:bound", case, f"at most {int(m['pairs']) + 1} chunks (pack_chunks_bounded)", len(got))
             if m["no_single_over"] and positive and exp and any(not c for c in conts):
@@ -285,32 +292,24 @@ def gen_probe(rng):
 
 # ---- C / D. change outputs ---------------------------------------------------------------------------------------------------
 def judge_change_outputs(ctx, case, ab, outs, mvs, cpb, where, hyp_ok):
-    """`outs`: [(coin, content)] of the change outputs in order.  What must hold (change_fit_partial): an output that carries
-    tokens exceeds the limit by at most the number of bytes by which its coin is wider than the coin it was measured with."""
-    c0 = sum(c for c, _ in outs)
+    """`outs`: [(coin, content)] of the change outputs in order.  What must hold (change_fit): every output that carries tokens
+    fits max_val_size with the coin it finally carries."""
     for i, (coin, content) in enumerate(outs):
         if not content:
             continue
         n = vlen(coin, content)
-        pc, pn = probe(ab, c0 if i == 0 else 0, content, cpb)
         last = i == len(outs) - 1
         if n <= mvs:
-            ctx.count(f"packfit:{where}:fits" + (":last" if last else ":first" if i == 0 else ":middle"))
+            ctx.count(f"packfit:{where}:fits" + (":last" if last else ":first" if i == 0 else ":middle")
+                      + (f":coin{wlen(coin)}B" if last else ""))
+            ctx.count(f"packfit:{where}:slack:" + ("0" if n == mvs else "1-4" if mvs - n <= 4 else ">4"))
             continue
         if not hyp_ok:
             ctx.count(f"packfit:{where}:over-limit:single-asset-over")
             ctx.skipped += 1
             continue
-        # the corner in which the clause is false of the code as it is (change_fit_counterexample): the LAST output receives
-        # all the remaining ADA; (the first output, when it is not the last, is funded with its minimum ADA priced without the
-        # change coin, which can be one width class above the coin it was measured with for exotic coins-per-byte)
-        excusable = last or (i == 0 and coin == min_ada(ab, 0, content, cpb))
-        if excusable and n + wlen(pc) <= mvs + wlen(coin) and wlen(coin) > wlen(pc):
-            ctx.count(f"packfit:{where}:over-limit:final-coin-wider:{wlen(pc)}->{wlen(coin)}B" + (":last" if last else ":not-last"))
-            ctx.skipped += 1
-            continue
-        ctx.violation(f"{where}: change output {i} of {len(outs)} carries a value of {n} bytes, over max_val_size {mvs}; measured with "
-                      f"its minimum ADA {pc} it takes {pn} bytes; final coin {coin}", case, mvs, n)
+        ctx.violation(f"{where}: change output {i} of {len(outs)} carries a value of {n} bytes, over max_val_size {mvs} "
+                      f"(final coin {coin}, {len(content)} assets)", case, mvs, n)
 
 
 def check_change(ctx, case):
@@ -355,7 +354,13 @@ def check_change(ctx, case):
             else:
                 ctx.violation("_calc_change: the change outputs do not hold inputs - outputs (tokens lost or duplicated)", case,
                               fmt(want), fmt(tot))
-        judge_change_outputs(ctx, case, ab, co, mvs, cpb, "change", not over)
+        if not case["respect"] and len(co) > 1:
+            # several outputs computed WITHOUT the minimum-ADA requirement: `_add_change_and_fee` never keeps such a result
+            # (it recomputes with the requirement); the coins need not lie between 0 and the change coin: outside change_fit
+            ctx.count("packfit:change:relaxed-and-split(not judged)")
+            ctx.skipped += 1
+        else:
+            judge_change_outputs(ctx, case, ab, co, mvs, cpb, "change", not over)
     ctx.count("packfit:change:" + (err or f"ok{min(len(res), 5)}"))
     if ctx.have_driver():
         req = {"op": "pfit.change", "p": model_params(p), "fee": str(case["fee"]), "inputs": case["inputs"], "mint": [],
@@ -485,18 +490,10 @@ W_POL = (bytes([0xC0]) * 28).hex()
 
 
 def check_witness(ctx, case):
-    """the concrete inputs of `change_fit_counterexample` / `pack_preserves_counterexample` (and a mainnet-parameter instance of
-    the first) on the implementation: the defect must reproduce exactly as the model says"""
+    """the concrete input of `pack_preserves_counterexample` on the implementation: the defect must reproduce exactly as the
+    model says"""
     w = case["w"]
-    if w == "change-2pow32":
-        params = {"max_val_size": 45, "cpb": 4310}
-        ma = [[W_POL, [["01020304", "1"]]]]
-        expect = [(2**32, 48)]
-    elif w == "change-2pow32-mainnet":
-        params = {"max_val_size": 5000, "cpb": 4310}
-        ma = [[W_POL, [[f"{i:04x}" + "00" * 30, "1"] for i in range(141)] + [["ff" * 21, "1"]]]]
-        expect = [(2**32, 5001)]
-    elif w == "pack-break":
+    if w == "pack-break":
         params = {"max_val_size": 45, "cpb": 4310}
         cx = S.StubContext({"params": params})
         b = TransactionBuilder(cx)
@@ -508,48 +505,6 @@ def check_witness(ctx, case):
         else:
             ctx.diff("pfit.witness:pack-break", case, [[], []], got)
         ctx.case(case)
-        return
-    elif w == "build-2pow32-mainnet":
-        # whole build() at mainnet parameters: one input of 2^32 + 1 000 000 lovelace and 142 tokens of one policy, no output
-        alist = [[W_POL, f"{i:04x}" + "00" * 30, "1"] for i in range(141)] + [[W_POL, "ff" * 21, "1"]]
-        sc = {"params": {"max_val_size": 5000, "cpb": 4310}, "net": 0,
-              "utxos": [{"id": "u0", "txid": "11" * 32, "ix": 0, "addr": "k0", "coin": 2**32 + 1_000_000, "assets": alist}],
-              "address_utxos": {}, "ops": [{"op": "add_input", "u": "u0"}],
-              "build": {"change": "k0", "merge_change": False, "selectors": [["largest"]]}}
-        run = S.run(sc, sign=False)
-        got = None
-        if not run.error:
-            B = L.Body(run.body.to_cbor())
-            got = [(len(o["assets"]), vlen(o["coin"], o["assets"]), o["coin"] >= 2**32) for o in B.outputs]
-        if got == [(142, 5001, True)]:
-            ctx.count("packfit:witness:build-2pow32-mainnet:reproduced(build() returns a change output whose value takes 5001 bytes > 5000)")
-        else:
-            ctx.diff("pfit.witness:" + w, case, [(142, 5001, True)], got if got is not None else run.error)
-        ctx.case(case)
-        return
-    else:
-        return
-    cx = S.StubContext({"params": params})
-    b = TransactionBuilder(cx)
-    addr = Address.from_primitive(W_ADDR)
-    fee = 170000
-    ins = [UTxO(TransactionInput(TransactionId(b"\x01" * 32), 0),
-                TransactionOutput(S.address("k2"), V.load_value({"coin": str(2**32 + fee), "ma": ma})))]
-    res = b._calc_change(fee, ins, [], addr, True, True)
-    got = [(int(o.amount.coin), vlen(int(o.amount.coin), V.content_ma(V.dump_ma(o.amount.multi_asset)))) for o in res]
-    if got == expect:
-        ctx.count(f"packfit:witness:{w}:reproduced({got[0][1]} bytes > {params['max_val_size']})")
-    else:
-        ctx.diff("pfit.witness:" + w, case, expect, got)
-    if ctx.have_driver():
-        m = ctx.driver().ok({"op": "pfit.change", "p": model_params({**S.DEFAULT_PARAMS, **params}), "fee": str(fee),
-                             "inputs": [{"coin": str(2**32 + fee), "ma": ma}], "mint": [], "withdrawals": [], "certs": [],
-                             "initial_pool": False, "proposals": [], "donation": "0", "addr": W_ADDR.hex(), "out_values": [],
-                             "respect": True})
-        ctx.traces += 1
-        if "err" in m or m["all_fit"] or not m["no_single_over"] or [int(x) for x in m["lens"]] != [n for _, n in got]:
-            ctx.diff("pfit.witness:model", case, m, got)
-    ctx.case(case)
 
 
 def dispatch(ctx, case):
@@ -568,11 +523,21 @@ def dispatch(ctx, case):
 
 def corpus():
     pol = W_POL
+    big = [[W_POL, [[f"{i:04x}" + "00" * 30, "1"] for i in range(141)] + [["ff" * 21, "1"]]]]
     return [
-        {"ext": EXT, "kind": "witness", "w": "change-2pow32"},
-        {"ext": EXT, "kind": "witness", "w": "change-2pow32-mainnet"},
         {"ext": EXT, "kind": "witness", "w": "pack-break"},
-        {"ext": EXT, "kind": "witness", "w": "build-2pow32-mainnet"},
+        # the inputs on which the clause failed before repair 8c81354: a last change output of 2^32 lovelace or more next to a
+        # bundle measured within 4 bytes of the limit (5001 bytes under max_val_size 5000) — directly and through build()
+        {"ext": EXT, "kind": "change", "params": {"max_val_size": 5000, "cpb": 4310}, "fee": 170000,
+         "inputs": [{"coin": str(2**32 + 170000), "ma": big}], "outputs": [], "respect": True},
+        {"ext": EXT, "kind": "change", "params": {"max_val_size": 48, "cpb": 4310}, "fee": 170000,
+         "inputs": [{"coin": str(2**32 + 170000), "ma": [[W_POL, [["01020304", "1"]]]]}], "outputs": [], "respect": True},
+        {"ext": EXT, "kind": "build", "sc": {
+            "params": {"max_val_size": 5000, "cpb": 4310}, "net": 0,
+            "utxos": [{"id": "u0", "txid": "11" * 32, "ix": 0, "addr": "k0", "coin": 2**32 + 1_000_000,
+                       "assets": [[p, n, q] for p, a in big for n, q in a]}],
+            "address_utxos": {}, "ops": [{"op": "add_input", "u": "u0"}],
+            "build": {"change": "k0", "merge_change": False, "selectors": [["largest"]]}}},
         # a single asset over the limit that is not the last of its policy: emitted alone, nothing lost
         {"ext": EXT, "kind": "pack", "how": "corpus", "params": {"max_val_size": 60, "cpb": 4310},
          "change": {"coin": "5000000", "ma": [[pol, [["aa" * 32, "7"], ["bb", "1"]]]]}},
@@ -587,10 +552,10 @@ def run_ext(ctx):
                  "every CBOR width boundary, coins-per-byte 0 .. 2^36) with max_val_size (60..5000) aimed so that a chunk closes "
                  "within ±4 bytes of the limit: `_pack_tokens_for_change`, `_adding_asset_make_output_overflow`, `_calc_change` "
                  "and whole build() runs, every chunk / change output measured with an independent encoder; single assets that "
-                 "alone exceed the limit; replay of the Lean counterexample witnesses")
-    ctx.assumptions.append("packfit: the clause 'fits max_val_size' is asserted in the form that holds (change_fit_partial): an output "
-                           "may exceed the limit by at most the bytes by which its final coin is wider than the minimum ADA it was "
-                           "measured with; such outputs are counted under packfit:*:over-limit:final-coin-wider, not flagged")
+                 "alone exceed the limit; replay of the Lean counterexample witness")
+    ctx.assumptions.append("packfit: change_fit assumes coins-per-byte >= 0 and that no single asset alone exceeds max_val_size "
+                           "(such cases are counted under packfit:*:single-asset-over, and the token loss of the `break` under "
+                           "packfit:*:tokens-lost:single-asset-over, not flagged)")
     for c in corpus():
         dispatch(ctx, c)
     for i in range(ctx.budget(90, 1200)):
